@@ -1,8 +1,38 @@
-(* C07 — statements are added as the proofs land (see DESIGN.md section 6). *)
-From Coq Require Import String Ascii List.
-From Bkl Require Import Model.Value Model.Str Proofs.StrProofs.
+(* C07 — no unresolved $required or stray directive ever reaches the output.
+   Statements only; proofs in Proofs/ValidProofs.v and Proofs/MergeProofs.v. *)
+From Coq Require Import String Ascii List ZArith.
+From Bkl Require Import Model.Value Model.Merge Model.Str Model.Eval Model.Tools
+  Proofs.MapsProofs Proofs.MergeProofs Proofs.PlainProofs Proofs.ValidProofs Proofs.RequiredProofs.
 Import ListNotations.
+Local Open Scope string_scope.
+Local Open Scope list_scope.
 
-Theorem C07_placeholder_unescape : forall s, unescape (escape s) = s.
-Proof. exact unescape_escape. Qed.
-Print Assumptions C07_placeholder_unescape.
+(* every document of every successful evaluation — whatever directives the input used — is the $$-unescaping
+   of a tree in which validation found no "$required" and no string or key that is '$' followed by a lower-case
+   letter. So a '$'+lower-case string in the output can only come from a "$$" escape. *)
+Theorem C07_outputs_valid : forall o docs outs, eval_docs o docs = Ok outs ->
+  Forall (fun out => exists y, out = finalize y /\ validate_go o y = None) outs.
+Proof. exact eval_docs_valid. Qed.
+Print Assumptions C07_outputs_valid.
+
+(* a directive-free document that still contains a marker is refused, with the class of the marker *)
+Theorem C07_marker_refused : forall o v e, plain v -> height v <= depth_limit -> v <> VNull ->
+  validate_go o (dn v) = Some e -> eval_docs o [v] = Err e.
+Proof. intros o v e Hp Hh Hn Hv. rewrite (eval_inert o v Hp Hh), Hv. destruct v; congruence. Qed.
+Print Assumptions C07_marker_refused.
+
+(* a $required in a lower layer survives every upper layer that does not mention its key *)
+Theorem C07_required_sticks : forall k layers, Forall (quiet_layer k) layers -> forall b r,
+  lookup k b = Some (VStr "$required") ->
+  fold_left (fun acc l => bind acc (fun a => merge' a l)) layers (Ok (VMap b)) = Ok r ->
+  exists m, r = VMap m /\ lookup k m = Some (VStr "$required").
+Proof.
+  intros k layers Hq b r Hb Hf. destruct (chain_frame k layers Hq b r Hf) as (m & -> & Hm).
+  exists m. split; [reflexivity|congruence].
+Qed.
+Print Assumptions C07_required_sticks.
+
+(* in a list, only an upper layer that supplies a list there removes the placeholder *)
+Theorem C07_required_list : forall d, merge' (VList d) VNull = Ok (VList d).
+Proof. reflexivity. Qed.
+Print Assumptions C07_required_list.
